@@ -114,3 +114,25 @@ package vm
 //@     invariant vm.context.seqFront == old(vm.context.seqFront) + 1 && vm.context.savedSeqFront == old(vm.context.seqFront) + 1
 //@     invariant vm.context.savedStorage == old(vm.context.storageVersion) && vm.context.savedBalance == old(vm.context.balance) && vm.context.savedReceived == old(vm.context.received)
 //@     invariant sendBlock == sendOf(vm, fromBlockHash) && err == nil
+
+// ---- C13: what the apply path pins of the fields the block hash does not cover ------------------------------------------------
+// User blocks: TotalPlasma is overwritten with the value derived from the covered fields Difficulty and FusedPlasma (BasePlasma
+// likewise from GetBasePlasmaForAccountBlock; not restated here). Contract receive blocks: the delivered block must agree with
+// the block regenerated from the ledger on Hash and ChangesHash - and on every other field that is stored.
+//@ func VM.applyBlock(vm, block) -> (err)
+//@   requires vm != nil && block != nil && block.Amount != nil
+//@   requires[send-exists] (block.BlockType == 3 || block.BlockType == 5) ==> sendOf(vm, block.FromBlockHash) != nil && sendOf(vm, block.FromBlockHash).Amount != nil && val(sendOf(vm, block.FromBlockHash).Amount) >= 0
+//@   ensures[user-total-plasma-rederived] err == nil && old(block.Address[0]) != 1 && old(block.BlockType) != 5 ==> block.TotalPlasma == powPlasma(block.Difficulty) + block.FusedPlasma
+//@   ensures-local[contract-receive-hash-is-of-the-regenerated-block] err == nil && block.BlockType == 5 ==> block.Hash == nom.abHashOf(generated) && block.ChangesHash == generated.ChangesHash
+//@   ensures-local[contract-receive-plasma-fields-as-regenerated] err == nil && block.BlockType == 5 ==> block.BasePlasma == generated.BasePlasma && block.TotalPlasma == generated.TotalPlasma
+
+// A signing closure (wallet key pair) reads the bytes it is given and nothing of the ledger or the block: ASSUMED.
+//@ func SignFunc(data) -> (signedData, addr, pubkey, err)
+//@   modifies nothing
+
+// packBlock: the transaction carries the delivered (or freshly signed) block; its ChangesHash is the digest of the changes the
+// transaction carries.
+//@ func Supervisor.packBlock(s, context, block, signFunc) -> (tx, err)
+//@   requires s != nil && block != nil
+//@   ensures[carries-the-block] err == nil ==> tx != nil && tx.Block == block
+//@   ensures[changes-hash-is-digest-of-changes] err == nil ==> block.ChangesHash == tx.Changes.digest
